@@ -55,6 +55,37 @@ def r1_empty(ctx):
                                             {'returned': [safe_show(an.ip, o)[:300] for o in an.outs if o.kind == 'ret']}, cfg)
 
 
+def make_path_by_hand(ctx, cfg):
+    """make_path written as a walk instead of through edge_iter: starting from e, while the edge is Pred(label, node) the
+    pair (node, label) is appended and the walk continues at map.get(node).unwrap(); it stops at the root edge."""
+    log = calllog.run(ctx, cfg, LQ + 'make_path')
+    ip = log.ip
+    if not log.iterations:
+        return False
+    for it in log.iterations:
+        gets = [c for c in it.calls if 'HashMap' in c[0] and c[0].endswith('::get')]
+        if len(gets) != 1 or gets[0][1][0] != ('fld', A(0), 'map'):
+            return False
+        node = gets[0][1][1]
+        # node is field 1 of the Pred payload of the current edge, the current edge a loop-carried variable that started as e
+        if not (node[0] == 'vfld' and node[2] == 'Pred' and node[3] == '1'):
+            return False
+        edge = node[1]
+        starts = [ev for hv, ev in it.mapping if hv == edge or hv in list(T.subterms(edge))]
+        if A(1) not in starts and not any(A(1) in list(T.subterms(x)) for x in starts):
+            return False
+        nxt = [it.cur.get(hv) for hv, ev in it.mapping if hv == edge or hv in list(T.subterms(edge))]
+        got = calllog.call_term(gets[0])
+        if not any(x is not None and T.show(got) in T.show(x) for x in nxt):
+            return False
+        label = ('vfld', edge, 'Pred', '0')
+        pushed = [p_[1] for c in it.state.frames[-1].cells if isinstance(c.v, X.ListV) for p_ in c.v.parts[-1:] if p_[0] == 'one']
+        want_n, want_l = T.show(node), T.show(label)
+        if not any(t_[0] == 'tuple' and want_n in T.show(t_[1][0]) and want_l in T.show(t_[1][1]) for t_ in pushed):
+            return False
+    return all(loop_exhausted(ip, o.state) for o in log.outs if o.kind == 'ret')
+
+
 def by_hand(ctx, cfg, m, e):
     log = calllog.run(ctx, cfg, RM + 'is_empty_re')
     ip = log.ip
@@ -182,7 +213,7 @@ def r4_queue(ctx):
     mp = ('fld', q, 'map')
     for cfg in ('dev', 'rel'):
         # push
-        an = analyse(ctx, cfg, LQ + 'push', [], uninterpreted=lambda p: True)
+        an = analyse(ctx, cfg, LQ + 'push', [], uninterpreted=lambda p: not p.endswith('LabeledQueue::<T, L>::visited'))
         ip, fn = an.ip, an.fn
         pre, label, suc = A(1), A(2), A(3)
         kinds = set()
@@ -274,9 +305,13 @@ def r4_queue(ctx):
         # make_path: collect of edge_iter mapped to (node, label), reversed once ; full_path looks up the destination
         an = analyse(ctx, cfg, LQ + 'make_path', [], uninterpreted=lambda p: True)
         for o in an.outs:
+            if o.kind == 'panic' and panic_role(o).startswith('unwrap'):
+                continue      # the predecessor of a recorded node is always recorded (the same unwrap lives in EdgeIterator::next)
             revs = [c for c in o.state.calls if c[0].endswith('::reverse')]
             eis = [c for c in o.state.calls if c[0].endswith('edge_iter')]
             ok = o.kind == 'ret' and len(revs) == 1 and len(eis) == 1 and eis[0][1] == (A(0), A(1))
+            if not ok and o.kind == 'ret' and len(revs) == 1 and not eis:
+                ok = make_path_by_hand(ctx, cfg)
             ctx.obligation(ok)
             (ctx.ok if ok else ctx.violation)('C05.R4', 'C05.R4/LabeledQueue::make_path/edges-from-destination-reversed-once', an.fn.path, an.fn.site(), {'calls': [T.show(calllog.call_term(c))[:140] for c in o.state.calls]}, cfg)
         an = analyse(ctx, cfg, LQ + 'full_path', [], uninterpreted=lambda p: True)
